@@ -30,7 +30,8 @@ LEVEL_NOTE = ('Trusted: TLC, TMSym.tla, the long-double textbook formulas of drv
               'directly). Off the lattice the spec is relational; a change below the documented accuracy is not a violation. Absolute '
               'accuracy of the exact form beyond the convergence region of the order-30 series (near the branch point, far east) rests '
               'on the inverse pair, the finite-difference definition laws and the symmetry group only. Named guards (notes/C06.md): '
-              'Series35, FarSide2, EquatorFarSide, PoleConditioning, BranchPoint, ExactGammaNearPole (finding), ExtScale (finding). '
+              'Series35, FarSide2, EquatorFarSide, PoleConditioning, BranchPoint, InImage. Two genuine defects are NOT guarded: the strict laws reject them and '
+              'known_findings.json matches them by input class (kf = tmx-gamma-nearpole, tmx-ext-lower). '
               'The documented convergence accuracy (2e-15") is unattainable in double precision; the scale bound is used for gamma. '
               'tools/TransverseMercatorProj is not exercised.')
 TECHNIQUE = 'TLA+ group / lattice model + TLC enumeration, spec-to-code replay, TLC trace validation'
@@ -60,14 +61,14 @@ def calibrate(ctx, traces):
                     continue
                 cls, fi = r.get('cls', 0), r.get('fi', 0)
                 kinds['%s.cls%d' % (e, cls)] += 1
+                if r.get('kf', 'none') != 'none':
+                    kinds['%s.kf=%s' % (e, r['kf'])] += 1
+                    continue
                 if e in ('cmp', 'rt', 'cr', 'sym') and cls == 0 and r['ang'] > 35000000:
                     kinds[e + '.series-beyond-35deg(guard)'] += 1
                     continue
                 if e == 'cmp' and r['otr'] > 10:
                     kinds['cmp.oracle-not-converged(guard)'] += 1
-                if r.get('lower') and max(r.get('kl', 0), r.get('kl3', 0)) > 2:
-                    kinds[e + '.ext-scale>8(guard)'] += 1
-                    continue
                 if fi not in TERR or abs(r['latq']) > 89000000 or r['sing'] < 1000000:
                     continue
                 if e == 'cr' and not (abs(r['latq']) <= 88000000 and (abs(r['latq']) >= 5000 or abs(r['lamq']) < 45000000 or cls >= 3)):
